@@ -186,9 +186,25 @@ def cells(tier, seed):
         for d in (1, 2, 3):
             yield {"kind": "user", "dim": d, "cat": k}
         yield {"kind": "user", "dim": "gallery", "cat": k}
+    from checks import _reassign
+    for c in _reassign.cells(tier, seed):     # E1 add-on: use -> assign -> use histories on one live object
+        yield c
+
+
+def _reassign_observe(obj, pts):
+    from checks._reassign import obs_call
+    out = {}
+    for i, x in enumerate(pts):
+        out["logpdf"] = obs_call(lambda: obj.logpdf(x)) if i == 0 else out["logpdf"]
+        out["logd-minus-logpdf"] = obs_call(lambda: np.asarray(obj.logd(x), float) - np.asarray(obj.logpdf(x), float)) if i == 1 else out.get("logd-minus-logpdf", ("exc", "-"))
+    out["cdf"] = obs_call(lambda: obj.cdf(pts[0])) if obj.dim <= 2 else ("exc", "skipped")
+    return out
 
 
 def eval_cell(cell):
+    if cell.get("fam") == "reassign":
+        from checks import _reassign
+        return _reassign.eval_cell(cell, PROPERTY, _reassign_observe, "logpdf/logd/cdf live vs fresh")
     res = CellResult(cell)
     kind = cell["kind"]
     if kind == "gauss":
